@@ -107,6 +107,11 @@ def history(ctx, rng, desc, hid):
         for who, want, got in (("master", wm, gm), ("slave", ws, gs)):
             if want == got:
                 continue
+            known_ids = {(0x80, False), (0x700 + K, True), (0x700 + K, False), (cob["local"], False), (cob["remote"], False)}
+            strays = [t for t in got if (t[0], t[3]) not in known_ids]
+            if strays:
+                ctx.violation("task-on-an-id-no-producer-has", f"after {after}: {who} still runs tasks {strays} on ids that belong to no producer any more "
+                              f"(an earlier task kept transmitting after a restart)", case())
             # classify by producer
             for prod, ids in (("sync", [(0x80, False)]), ("guarding", [(0x700 + K, True)]), ("heartbeat", [(0x700 + K, False)]),
                               ("pdo", [(cob["local"], False), (cob["remote"], False)])):
@@ -133,8 +138,26 @@ def history(ctx, rng, desc, hid):
         r = rng.random()
         try:
             if r < 0.14:
-                p = rng.choice([None, 0.01, 0.1, 0.5, 1.0])
+                p = rng.choice([None, 0.01, 0.1, 0.5, 1.0, 0])
                 running = exp.sync is not None
+                if p == 0:
+                    # an invalid period is refused; afterwards nothing may run with a period the producer does not have
+                    ops.append(("sync.start", 0))
+                    ctx.case(("sync.start-invalid", running, flavour), nontrivial=running)
+                    try:
+                        mnet.sync.start(0)
+                        ctx.violation("start-without-period-accepted:sync", "sync.start(0) did not raise", case())
+                    except ValueError:
+                        pass
+                    live_sync = [t for t in live(mst) if t[0] == 0x80]
+                    if live_sync and live_sync[0][2] != mnet.sync.period:
+                        ctx.violation("task-period-differs-from-producer:sync",
+                                      f"after the refused start(0) a SYNC task runs with period {live_sync[0][2]} while sync.period is {mnet.sync.period!r}", case())
+                    exp.sync = live_sync[0][2] if len(live_sync) == 1 and live_sync[0][2] == mnet.sync.period else None
+                    exp.sync_period = mnet.sync.period or None
+                    if not compare(ops[-1]):
+                        break
+                    continue
                 ops.append(("sync.start", p))
                 ctx.case(("sync.start", running, p is None, flavour), nontrivial=running)
                 known = p if p is not None else exp.sync_period
@@ -169,6 +192,18 @@ def history(ctx, rng, desc, hid):
                     if p is not None or exp.pdo_period[which] is not None:
                         ctx.violation("start-raised:pdo", f"map.start({p}) raised ValueError", case())
                     exp.pdo[which] = None
+            elif r < 0.37 and exp.pdo[rng.choice(["local", "remote"])] is not None:
+                which = "local" if exp.pdo["local"] is not None else "remote"
+                new_cob = cob[which] ^ 0x40
+                p = rng.choice([None, exp.pdo_period[which], 0.7])
+                ops.append(("pdo.readdress+start", which, hex(new_cob), p))
+                ctx.case(("pdo.restart-new-id", p is None, flavour), nontrivial=True)
+                maps[which].cob_id = new_cob
+                maps[which].start(p)
+                cob[which] = new_cob
+                if p is not None:
+                    exp.pdo_period[which] = p
+                exp.pdo[which] = (bytes(maps[which].data), exp.pdo_period[which])
             elif r < 0.4:
                 which = rng.choice(["local", "remote"])
                 ops.append(("pdo.stop", which))
